@@ -7,3 +7,51 @@ package pipeline
 //@ func NewOffsets
 //@   pure
 //@   ensures result.current == current
+
+// C20: admission control.  checkInputBytes decides exactly by length, the
+// one-byte newline record and the size limit; a record within the limit is
+// returned unchanged; a cut record is its first MaxEventSize bytes plus its
+// newline, written inside the caller's record (never re-allocated).
+
+//@ func (*Pipeline).checkInputBytes
+//@   requires p.settings.MaxEventSize >= 0
+//@   modifies bytes
+//@   ensures result2 == !(len(bytes) == 0 || (len(bytes) == 1 && old(bytes[0]) == '\n') || (p.settings.MaxEventSize != 0 && len(bytes) > p.settings.MaxEventSize && !p.settings.CutOffEventByLimit))
+//@   ensures !(p.settings.MaxEventSize != 0 && len(bytes) > p.settings.MaxEventSize) ==> result0 == bytes && !result1 && unchanged(bytes)
+//@   ensures p.settings.MaxEventSize != 0 && len(bytes) > p.settings.MaxEventSize && !p.settings.CutOffEventByLimit ==> result0 == bytes && !result1 && unchanged(bytes)
+//@   ensures p.settings.MaxEventSize != 0 && len(bytes) > p.settings.MaxEventSize && p.settings.CutOffEventByLimit ==> result1 && sameblock(result0, bytes) && off(result0) == off(bytes)
+//@   ensures p.settings.MaxEventSize != 0 && len(bytes) > p.settings.MaxEventSize && p.settings.CutOffEventByLimit ==> len(result0) == p.settings.MaxEventSize + ite(old(bytes[len(bytes)-1]) == '\n', 1, 0)
+//@   ensures p.settings.MaxEventSize != 0 && len(bytes) > p.settings.MaxEventSize && p.settings.CutOffEventByLimit ==> unchanged(bytes[:p.settings.MaxEventSize])
+//@   ensures p.settings.MaxEventSize != 0 && len(bytes) > p.settings.MaxEventSize && p.settings.CutOffEventByLimit && old(bytes[len(bytes)-1]) == '\n' ==> result0[p.settings.MaxEventSize] == '\n'
+//@   ensures len(result0) <= len(bytes)
+//@   callee IncMaxEventSizeExceeded(lvs)
+//@     pure
+
+// In refuses a record (returns EventSeqIDError == 0) only for one of the reasons
+// the property lists: empty/oversize (checkInputBytes), undecodable (err), already
+// committed (stream offset), antispam, or the input's PassEvent (streamEvent == 0).
+
+//@ func (*Pipeline).In
+//@   ghost g_so int = 0
+//@   ghost g_spam bool = false
+//@   ghost g_pass0 bool = false
+//@   ghost held int = 0
+//@   requires p.settings.MaxEventSize >= 0
+//@   requires 2 <= p.decoderType && p.decoderType <= 10
+//@   ensures held == 0
+//@   ensures result == 0 ==> !ok || err != nil || (g_so > 0 && offsets.current < g_so) || g_spam || g_pass0
+//@   callee ByStream(stream) (r)
+//@     pure
+//@     set g_so := r
+//@   callee IsSpam(id, name, isNew, event, t, meta) (r)
+//@     set g_spam := r
+//@   callee streamEvent(e) (r)
+//@     requires held == 1
+//@     set g_pass0 := r == 0
+//@     set held := held - 1
+//@   callee get(size) (e)
+//@     requires held == 0
+//@     set held := held + 1
+//@   callee back(e)
+//@     requires held == 1
+//@     set held := held - 1
